@@ -274,7 +274,10 @@ func (g *genState) next(p *scriptProfile) {
 		}
 	case pick(p.wSend):
 		st := r.ref.VerifState()
-		if nS == 0 || (nS == 1 && st.Out != nil && st.Open != nil && p.name != "c19") {
+		if nS <= 1 && rng.Intn(6) == 0 {
+			r.apply(&sop{kind: "sendc", body: g.body()})
+			g.class("op:send-cancelled-ctx")
+		} else if nS == 0 || (nS == 1 && st.Out != nil && st.Open != nil && p.name != "c19") {
 			b := g.body()
 			if rng.Intn(25) == 0 {
 				b = nil
@@ -296,8 +299,15 @@ func (g *genState) next(p *scriptProfile) {
 		}
 	case pick(p.wRecvCall):
 		if nR == 0 {
-			r.apply(&sop{kind: "recv"})
-			g.class("op:recv")
+			if rng.Intn(4) == 0 {
+				// Recv with an already cancelled context: returns the pending message or an
+				// error, and must not consume anything when it returns an error
+				r.apply(&sop{kind: "recvc"})
+				g.class("op:recv-cancelled-ctx")
+			} else {
+				r.apply(&sop{kind: "recv"})
+				g.class("op:recv")
+			}
 		}
 	case pick(p.wOdd):
 		if two {
